@@ -48,6 +48,16 @@ def main() -> int:
             if t.startswith("^") and t.endswith("$") and "\\ud" not in t.lower():
                 cases.append({"src": "corpus", "text": core.cps(t), "alpha": corpus_alphabet(t), "maxlen": 4})
         n_corpus = len(cases) - n_gen
+    # distinct inputs only: one case per pattern text (the first one wins: generated trees before tokens / corpus)
+    seen_texts = set()
+    distinct = []
+    for c in cases:
+        t = tuple(c["text"])
+        if t not in seen_texts:
+            seen_texts.add(t)
+            distinct.append(c)
+    n_dropped = len(cases) - len(distinct)
+    cases = distinct
     cases_p = ck.work / "cases.json"
     core.write_json(cases_p, cases)
     obs_p = ck.work / "obs.json"
@@ -81,6 +91,7 @@ def main() -> int:
         "to completion, %d UTF-16 variant programs; non-trivial = emitted program with at least one jump or split, executed by TLC on every string "
         "without line breaks of length <= maxlen over the boundary alphabet" % (n_gen, n_corpus, n_acc, n_emit, n_cpp, n_16)
     )
+    ck.cov["rule"] += "; %d generated cases whose pattern text was already present were dropped before running (distinct texts only)" % n_dropped
     ck.cov["exhaustive"] = True
     pick = [o for o in obs if o["outcome"] == "ok" and any(i["op"] == "split" for i in o["prog"])]
     pick = [pick[k] for k in (0, len(pick) // 2, len(pick) - 1)] if len(pick) >= 3 else obs[:3]
@@ -92,6 +103,6 @@ def main() -> int:
         "the big-step VM semantics used for conformance is model-checked against the small-step state machine in the same run (M)",
         "wchar_t is 32 bit here: the compiled C++ runs the UTF-32 programs; the UTF-16 programs are run by the spec VM only",
     ]
-    if n_branching == 0 or n_cpp == 0:
+    if (n_branching == 0 or n_cpp == 0) and not replay:
         raise core.MachineryFailure("vacuous run: no branching program emitted or the C++ matcher never ran")
     return ck.finish()
